@@ -63,11 +63,12 @@ def kernel_twins(rep, repo, mod):
         cc = [c for c in find_all(fcopy, ast.Call) if call_name(c) == call_name(calls[0])]
         args = cc[0].args if len(cc) == 1 else calls[0].args
         lane = cz(args[4]) if len(args) > 6 else None
-        ok = lane is not None and cz(args[6]) == f'simctl_int[:,{lane}]' and cz(args[5]) == 'delays' and cz(args[7]) == 'seed'
+        ok = lane is not None and len(args) == 8 and cz(args[6]) == f'simctl_int[:,{lane}]' and cz(args[5]) == 'delays' and cz(args[7]) == 'seed'
         rep.ob('C06.kernel', f'{nm}: lane {lane} is evaluated with simctl_int[:, {lane}]', ok)
         if not ok:
             rep.violate('C06.kernel', mod, fn, calls[0], f'{nm}: the evaluation of lane `{lane}` must receive that lane\'s control column simctl_int[:, {lane}] '
-                        f'(found {cz(args[6]) if len(args) > 6 else None}): otherwise every lane uses one lane\'s delay dataset selection', node=calls[0])
+                        f'(found {cz(args[6]) if len(args) > 6 else None}) and `delays`, `seed` as the 6th and 8th argument ({len(args)} arguments found): otherwise every lane uses one lane\'s '
+                        f'delay dataset selection, or the globally selected dataset (seed) never reaches the kernel', node=calls[0])
     w, g = mod.func('WaveSim.c_prop'), mod.func('WaveSimCuda.c_prop')
     for f in (w, g):
         s0 = [cz(s) for s in body_no_doc(f)]
